@@ -179,7 +179,7 @@ class V:
 
     def __init__(self, v, err=0.0, any_=False):
         self.v, self.any = float(v), any_
-        self.err = err if err == err else INF
+        self.err = 0.0 if (self.v != self.v or self.v in (INF, -INF)) else (err if err == err else INF)
 
 
 ANYV = V(NAN, 0.0, True)
